@@ -90,6 +90,16 @@ pub fn check_text(ctx: &mut Ctx, s: &str, model: Option<&Content>) -> CheckResul
 }
 
 fn check_paragraph_reader(s: &str, doc: &lossy::Deb822) -> CheckResult {
+    // the same text through the io::Read entry point of the lossy reader: the same document
+    match std::panic::catch_unwind(|| lossy::Deb822::from_reader(s.as_bytes())) {
+        Ok(Ok(d2)) => {
+            let a: Vec<&lossy::Paragraph> = doc.iter().collect();
+            let b: Vec<&lossy::Paragraph> = d2.iter().collect();
+            ensure!(a == b, "lossy-from-reader", "lossy::Deb822::from_reader(bytes) gives {:?}, from_str gives {:?}", lossy_content(&d2), lossy_content(doc));
+        }
+        Ok(Err(e)) => return fail("lossy-from-reader", format!("lossy::Deb822::from_reader(bytes) rejects a text that from_str accepts: {}", e)),
+        Err(_) => return fail("lossy-from-reader", "lossy::Deb822::from_reader(bytes) panics on a text that from_str accepts".into()),
+    }
     if let Ok(Ok(p)) = std::panic::catch_unwind(|| lossy::Paragraph::from_str(s)) {
         let first = doc.iter().next();
         ensure!(first == Some(&p), "lossy-paragraph-is-first", "lossy::Paragraph::from_str returned {:?}, the document's first paragraph is {:?}", p, first);
@@ -108,7 +118,7 @@ impl PropImpl for C06 {
          (well-formed renderings: by C03's rule). Distinct by text hash.".into()
     }
     fn expected_labels(&self) -> Vec<&'static str> {
-        vec!["both-accept", "both-reject", "comment:after-last-field", "comment:before-first-field", "comment:between-fields", "comment:between-paragraphs", "comment:end", "comment:top", "continuation-starts-with-colon", "continuation-starts-with-dash", "duplicate-name", "empty-first-line", "empty-value", "has:CR", "multi-line-value", "no-final-newline", "no-paragraph", "no-space-after-colon", "non-ascii-value", "only-lossless-accepts", "origin:enum", "origin:mutated-doc", "origin:random", "origin:well-formed", "paragraphs>=2", "several-empty-lines", "tab-whitespace", "trailing-whitespace-in-line"]
+        vec!["both-accept", "both-reject", "comment:after-last-field", "comment:before-first-field", "comment:between-fields", "comment:between-paragraphs", "comment:end", "comment:top", "continuation-starts-with-colon", "continuation-starts-with-dash", "duplicate-name", "empty-first-line", "empty-value", "has:CR", "multi-line-value", "no-final-newline", "no-paragraph", "no-space-after-colon", "non-ascii-value", "only-lossless-accepts", "origin:enum", "origin:mutated-doc", "origin:multi-byte-character-across-a-block-boundary", "origin:random", "origin:well-formed", "paragraphs>=2", "several-empty-lines", "tab-whitespace", "trailing-whitespace-in-line"]
     }
     fn budget(&self, tier: Tier) -> Budget {
         Budget { cases_per_lane: if tier == Tier::Quick { 20000 } else { 100_000 }, tape_max: 600, cpu_s: 10 }
@@ -124,6 +134,10 @@ impl PropImpl for C06 {
         Some(Case { text: t.to_string(), model: None, origin: "text" })
     }
     fn decode(&self, ctx: &mut Ctx, t: &mut Tape) -> Case {
+        if t.chance(1, 40) && !ctx.light {
+            // a long document with a multi-byte character across a block boundary (readers that take an io::Read)
+            return Case { text: c01::block_boundary_doc(t), model: None, origin: "block-boundary" };
+        }
         match t.below(4) {
             0 => {
                 let text = text::weighted_text(t, c01::WEIGHTED, 300);
@@ -149,6 +163,7 @@ impl PropImpl for C06 {
         ctx.label(match case.origin {
             "enum" => "origin:enum",
             "mutated-doc" => "origin:mutated-doc",
+            "block-boundary" => "origin:multi-byte-character-across-a-block-boundary",
             "well-formed" => "origin:well-formed",
             "text" => "origin:text",
             _ => "origin:random",
